@@ -323,24 +323,47 @@ def accessor_only(repo, res):
         res.ob(key)
         if not re.search(rf"\b(w|c) = self\.{attr}\b", ast.unparse(f.node)):
             res.fail(key, f"{fn} does not read from self.{attr}", sm.line(f.node))
-    # callers pass the terminal of the same modified terminal
+    # the accessors of constants and directly referenced coefficient dofs are interpreted: which element of c / w do they read?
+    from ..absint import Interp as _I2, Node as _N2, Raised as _R2
+    from ..lnexec import Exec as _Exec2
+    from ..lnodes_model import load_classes as _lc2
+
     am = repo.mod("ffcx.codegeneration.access")
+    it2 = _I2(repo, _lc2(repo), primary="ffcx.codegeneration.access")
+    it2.obj_classes.update({"FFCXBackendSymbols": SYMBOLS, "FFCXBackendAccess": "ffcx.codegeneration.access"})
+    k0, k1 = _N2("Constant", name="k0"), _N2("Constant", name="k1")
+    c0, c1 = _N2("Coefficient", name="f0"), _N2("Coefficient", name="f1")
+    sy = _N2("FFCXBackendSymbols", coefficients=it2.construct("Symbol", ["w", "DataType.SCALAR"], {}), constants=it2.construct("Symbol", ["c", "DataType.SCALAR"], {}),
+             coefficient_offsets={c0: 0, c1: 6}, original_constant_offsets={k0: 0, k1: 4}, coefficient_numbering={c0: 0, c1: 1})
+    ac = _N2("FFCXBackendAccess", symbols=sy, entity_type="cell", integral_type="cell")
+
+    def where(acc):
+        ex = _Exec2(())
+        return acc.f["array"].f["name"], tuple(ex.index(i) for i in acc.f["indices"])
+
     f = am.func("FFCXBackendAccess.constant")
+    res.functions.add(f.key)
     key = f"{f.key}:flat-component"
     res.ob(key)
-    if "constant_index_access(mt.terminal, mt.flat_component)" not in ast.unparse(f.node):
-        res.fail(key, "constants are not read at c[offset(constant) + flat_component] (row-major flattening)", am.line(f.node))
+    try:
+        got = where(it2.call_f(f, [ac, _N2("ModifiedTerminal", terminal=k1, flat_component=3, component=(1, 0), restriction=None), None, None]))
+    except (_R2, KeyError, AttributeError) as e:
+        got = f"raises {e}"
+    if got != ("c", (7,)):
+        res.fail(key, f"component 3 of the second constant (offset 4) is read at {got}, expected c[7]: constants are read at c[offset(constant) + flat component] "
+                 "(row-major flattening)", am.line(f.node))
     f = am.func("FFCXBackendAccess.coefficient")
+    res.functions.add(f.key)
     key = f"{f.key}:direct-dof"
     res.ob(key)
-    if "coefficient_dof_access(mt.terminal, begin)" not in ast.unparse(f.node):
-        res.fail(key, "direct coefficient dof access does not use the terminal's own offset table entry", am.line(f.node))
-    dm = repo.mod("ffcx.codegeneration.definitions")
-    f = dm.func("FFCXBackendDefinitions.coefficient")
-    key = f"{f.key}:dof-access"
-    res.ob(key)
-    if not re.search(r"coefficient_dof_access\(\s*mt\.terminal,\s*ic\.global_index \* bs \+ begin\s*\)", ast.unparse(f.node)):
-        res.fail(key, "coefficient definition does not read w[offset + ic*block_size + begin] of its own terminal", dm.line(f.node))
+    td = _N2("UniqueTableReferenceT", ttype="ones", values=_N2("ndarray", shape=(1, 1, 1, 1), size=1), offset=2, block_size=1)
+    try:
+        got = where(it2.call_f(f, [ac, _N2("ModifiedTerminal", terminal=c1, restriction=None, flat_component=0, component=()), td, None]))
+    except (_R2, KeyError, AttributeError) as e:
+        got = f"raises {e}"
+    if got != ("w", (8,)):
+        res.fail(key, f"a directly referenced dof (real element, table offset 2) of the second coefficient (offset 6) is read at {got}, expected w[8]", am.line(f.node))
+    # the definition of coefficient values: GEN-DEFS (interpreted on samples)
     # NULL-pointer guard: entity index of cells is the literal 0, before any subscript of entity_local_index
     ef = sm.func("FFCXBackendSymbols.entity")
     cfg = CFG(ef.node)
